@@ -252,6 +252,8 @@ class NdArr(AbsVal):
                 return NotImplemented
             other = NdArr((), [other])
         a, b = (other, self) if reflected else (self, other)
+        if op == "matmul":
+            return matmul(a, b)
         return elementwise(lambda x, y: _scalar_binop(op, x, y), a, b)
 
     def av_compare(self, op, other, reflected):
@@ -1411,9 +1413,98 @@ def _x_flip(args, kw):
     return getitem(a, tuple(idx))
 
 
+def _x_meshgrid(args, kw):
+    """np.meshgrid of concrete 1-D arrays (indexing 'ij' or 'xy')."""
+    import itertools as _it
+
+    vs = [lift(v) for v in args]
+    if any(v.sp or v.ndim != 1 for v in vs):
+        raise AnalysisError("meshgrid model: concrete 1-D inputs expected")
+    order = kw.get("indexing", "xy")
+    if order not in ("ij", "xy"):
+        raise Raised("ValueError", "meshgrid indexing")
+    lens = [v.shape[0] for v in vs]
+    if order == "xy" and len(vs) >= 2:
+        shape = (lens[1], lens[0]) + tuple(lens[2:])
+        pos = lambda d, ix: ix[1] if d == 0 else ix[0] if d == 1 else ix[d]
+    else:
+        shape = tuple(lens)
+        pos = lambda d, ix: ix[d]
+    return [NdArr(shape, [vs[d].data[pos(d, ix)] for ix in _it.product(*[range(n) for n in shape])]) for d in range(len(vs))]
+
+
+def _x_dot(args, kw):
+    """np.dot(a, b) with b 1-D: contraction of the last axis of a (concrete shapes)."""
+    a, b = lift(args[0]), lift(args[1])
+    if a.sp or b.sp or b.ndim != 1 or a.ndim < 1 or a.shape[-1] != b.shape[0]:
+        raise AnalysisError(f"dot model: concrete (..., n) . (n,) expected, got {a.shape} . {b.shape}")
+    n = b.shape[0]
+    out = []
+    for r in range(len(a.data) // n):
+        tot = Rat.const(0)
+        for j in range(n):
+            tot = tot + to_rat(a.data[r * n + j]) * to_rat(b.data[j])
+        out.append(tot)
+    if a.ndim == 1:
+        return out[0]
+    return NdArr(a.shape[:-1], out)
+
+
+def matmul(a, b):
+    """a @ b for concrete 1-D / 2-D operands."""
+    if a.sp or b.sp or a.ndim not in (1, 2) or b.ndim not in (1, 2):
+        raise AnalysisError(f"matmul model: concrete 1-D / 2-D operands, got {a.shape} @ {b.shape}")
+    A = a if a.ndim == 2 else NdArr((1, a.shape[0]), list(a.data))
+    B = b if b.ndim == 2 else NdArr((b.shape[0], 1), list(b.data))
+    if A.shape[1] != B.shape[0]:
+        raise Raised("TypeError", f"matmul shapes {a.shape} @ {b.shape}")
+    n, m, p = A.shape[0], A.shape[1], B.shape[1]
+    out = []
+    for i in range(n):
+        for j in range(p):
+            tot = Rat.const(0)
+            for k in range(m):
+                tot = tot + to_rat(A.data[i * m + k]) * to_rat(B.data[k * p + j])
+            out.append(tot)
+    if a.ndim == 1 and b.ndim == 1:
+        return out[0]
+    if a.ndim == 1:
+        return NdArr((p,), out)
+    if b.ndim == 1:
+        return NdArr((n,), out)
+    return NdArr((n, p), out)
+
+
+def _x_norm(args, kw):
+    """np.linalg.norm of a concrete array without axis / ord: sqrt of the sum of squares."""
+    from .poly import apply_fn
+
+    a = lift(args[0])
+    if a.sp or len(args) > 1 or kw.get("axis") is not None or kw.get("ord") is not None:
+        raise AnalysisError("norm model: concrete array, default ord, no axis")
+    tot = Rat.const(0)
+    for v in a.data:
+        r = to_rat(v)
+        tot = tot + r * r
+    if not tot.is_const() and tot.n == tot.d:
+        return Rat.const(1)
+    if tot.is_const() and tot.const_value() >= 0:
+        from math import isqrt
+
+        c = tot.const_value()
+        rn, rd = isqrt(c.numerator), isqrt(c.denominator)
+        if rn * rn == c.numerator and rd * rd == c.denominator:
+            return Rat.const(Fraction(rn, rd))
+    return apply_fn("sqrt", tot)
+
+
 ARR_EXT.update(
     {
         "np.flip": _x_flip,
+        "np.linalg.norm": _x_norm,
+        "np.matmul": lambda args, kw: matmul(lift(args[0]), lift(args[1])),
+        "np.meshgrid": _x_meshgrid,
+        "np.dot": _x_dot,
         "np.pad": _x_pad,
         "np.roll": _x_roll,
         "np.eye": _x_eye,
